@@ -6,9 +6,11 @@
 # watchdog, starved generator, harness problem).
 #
 # thorough = the proptest-driven check with 10-20x the quick budget and larger size bounds, and,
-# for the properties that have a libFuzzer target (C06 kv, C07 prefix, C18 addr, C02 tree,
-# C14 staking), a coverage-guided campaign of a fixed number of runs over the same generator and
-# oracle, started from a fresh temporary corpus seeded from /verif/fuzz/seeds/<target>.
+# for the properties that have a libFuzzer target (C06 kv, C07 prefix, C18 addr, C09 bank,
+# C17 routing, the tree-engine properties C01-C05 C08 C10-C13 through `tree`, C14-C16 through
+# `staking`; the property is passed in VERIF_FUZZ_ID), a coverage-guided campaign of a fixed number
+# of runs over the same generator and oracle, started from a fresh temporary corpus seeded from
+# /verif/fuzz/seeds/<target>.
 ID="$1"; TIER="${2:-quick}"
 [ -n "$ID" ] || { echo "usage: run.sh <ID> <quick|thorough> [--replay FILE]" >&2; exit 2; }
 shift; [ $# -gt 0 ] && shift
@@ -31,10 +33,13 @@ case "$ID" in
   C06) TARGET=kv; RUNS=600000; MAXLEN=1400 ;;
   C07) TARGET=prefix; RUNS=600000; MAXLEN=900 ;;
   C18) TARGET=addr; RUNS=300000; MAXLEN=500 ;;
-  C02) TARGET=tree; RUNS=150000; MAXLEN=12000 ;;
-  C14) TARGET=staking; RUNS=200000; MAXLEN=1600 ;;
+  C09) TARGET=bank; RUNS=150000; MAXLEN=2500 ;;
+  C17) TARGET=routing; RUNS=300000; MAXLEN=64 ;;
+  C01|C02|C03|C04|C05|C08|C10|C11|C12|C13) TARGET=tree; RUNS=100000; MAXLEN=12000 ;;
+  C14|C15|C16) TARGET=staking; RUNS=150000; MAXLEN=1600 ;;
   *) exit 0 ;;
 esac
+VERIF_FUZZ_ID="$ID"; export VERIF_FUZZ_ID
 [ -n "$VERIF_FUZZ_RUNS" ] && RUNS="$VERIF_FUZZ_RUNS"
 FZ="$VERIF_ROOT/fuzz"
 if ! (cd "$VERIF_ROOT/harness" && cargo +nightly fuzz build --fuzz-dir "$FZ" -s none "$TARGET" >"$FZ/build.log" 2>&1); then
